@@ -8,7 +8,7 @@
      if req < F[0]: radius = a[0];  if req >= F[n-1]: radius = a[n-1].
 
    No property states what remove_resolved should remove (DESIGN 0.2); these are theorems about what the code computes. *)
-From Coq Require Import QArith List Bool Lia Lra Psatz.
+From Coq Require Import QArith List Bool Lia Lqa.
 Import ListNotations.
 Open Scope Q_scope.
 
@@ -355,6 +355,212 @@ Proof.
     destruct (Qlt_le_dec (frac * last fl 0) (last fl 0)) as [_|X]; [reflexivity|lra].
   - intro H. destruct (Qlt_le_dec (frac * last fl 0) (last fl 0)) as [X|_]; [lra|reflexivity].
 Qed.
+
+(* ---------- repeated apertures ----------
+   Models.read hands find_radius_sigma the apertures ConvolvedFluxes.interpolate left behind: those beyond the table have been reset
+   to the largest tabulated one, so the tail of the list repeats it.  There the code divides a negative flux step (the same flux,
+   scaled by a larger distance) by zero: sigma = -inf, which is never above the threshold and, as the outer neighbour of a crossing,
+   makes the interpolation weight 0.  `None` below is that -inf; +inf and nan (a non-negative flux step over a zero step in
+   aperture) are outside the model: the whole result is None. *)
+
+Definition dsig (a0 f0 a1 f1 : Q) : option (option Q) :=
+  let da := a1 * a1 - a0 * a0 in
+  if Qeq_bool da 0 then (if Qlt_le_dec (f1 - f0) 0 then Some None else None) else Some (Some ((f1 - f0) / da)).
+
+Fixpoint sigma_rest_o (a0 f0 : Q) (aps fl : list Q) : option (list (option Q)) :=
+  match aps, fl with
+  | a1 :: ar, f1 :: fr => match dsig a0 f0 a1 f1, sigma_rest_o a1 f1 ar fr with Some x, Some r => Some (x :: r) | _, _ => None end
+  | _, _ => Some []
+  end.
+
+Definition sigma_o (aps fl : list Q) : option (list (option Q)) :=
+  match aps, fl with
+  | a0 :: ar, f0 :: fr => option_map (cons (Some (f0 / (a0 * a0)))) (sigma_rest_o a0 f0 ar fr)
+  | _, _ => Some []
+  end.
+
+Fixpoint somes (l : list (option Q)) : list Q :=
+  match l with [] => [] | Some x :: r => x :: somes r | None :: r => somes r end.
+
+Definition crosso (thr a a' s : Q) (s' : option Q) : Q := match s' with Some q => cross thr a a' s q | None => a end.
+
+Fixpoint scano (thr : Q) (aps : list Q) (sg : list (option Q)) : Q :=
+  match aps, sg with
+  | a :: ((a' :: _) as ar), s :: ((s' :: _) as sr) =>
+      let r := scano thr ar sr in
+      match s with
+      | Some sq => if Qlt_le_dec thr sq then (if Qeq_bool r 0 then crosso thr a a' sq s' else r) else r
+      | None => r
+      end
+  | _, _ => 0
+  end.
+
+Definition above (thr : Q) (s : option Q) : bool := match s with Some q => if Qlt_le_dec thr q then true else false | None => false end.
+
+Definition radius_thr_o (thr : Q) (aps : list Q) (sg : list (option Q)) : Q :=
+  if above thr (last sg None) then last aps 0 else scano thr aps sg.
+
+Definition radius_sigma_o (frac : Q) (aps fl : list Q) : option Q :=
+  match sigma_o aps fl with
+  | Some sg => Some (radius_thr_o (frac * qmax (somes sg)) aps sg)
+  | None => None
+  end.
+
+(* strictly increasing apertures: nothing is infinite and this is radius_sigma_m *)
+Lemma increasing_sq a a' : 0 < a -> a < a' -> ~ a' * a' - a * a == 0.
+Proof. intros. nra. Qed.
+
+Lemma sigma_rest_o_some a0 f0 aps fl : 0 < a0 -> increasing (a0 :: aps) ->
+  sigma_rest_o a0 f0 aps fl = Some (map Some (sigma_rest a0 f0 aps fl)).
+Proof.
+  revert a0 f0 fl. induction aps as [|a1 ar IH]; intros a0 f0 fl P I; [destruct fl; reflexivity|].
+  destruct fl as [|f1 fr]; [reflexivity|]. simpl.
+  assert (L : a0 < a1) by (inversion I; subst; assumption).
+  unfold dsig. destruct (Qeq_bool (a1 * a1 - a0 * a0) 0) eqn:E.
+  - apply Qeq_bool_eq in E. exfalso. exact (increasing_sq a0 a1 P L E).
+  - rewrite (IH a1 f1 fr); [reflexivity|lra|eapply increasing_tail; exact I].
+Qed.
+
+Lemma sigma_o_some aps fl : (forall a, In a aps -> 0 < a) -> increasing aps -> sigma_o aps fl = Some (map Some (sigma_m aps fl)).
+Proof.
+  intros P I. destruct aps as [|a0 ar]; [reflexivity|]. destruct fl as [|f0 fr]; [reflexivity|].
+  unfold sigma_o, sigma_m. rewrite sigma_rest_o_some; [reflexivity|apply P; left; reflexivity|exact I].
+Qed.
+
+Lemma somes_map_some l : somes (map Some l) = l.
+Proof. induction l as [|x r IH]; [reflexivity|]. simpl. now rewrite IH. Qed.
+
+Lemma scano_map_some thr aps sg : scano thr aps (map Some sg) = scan thr aps sg.
+Proof.
+  revert sg. induction aps as [|a ar IH]; intros sg; [destruct sg; reflexivity|].
+  destruct sg as [|s sr]; [destruct ar; reflexivity|]. destruct ar as [|a' ar']; [reflexivity|].
+  destruct sr as [|s' sr']; [reflexivity|].
+  change (scano thr (a :: a' :: ar') (map Some (s :: s' :: sr'))) with
+    (let r := scano thr (a' :: ar') (map Some (s' :: sr')) in
+     if Qlt_le_dec thr s then (if Qeq_bool r 0 then cross thr a a' s s' else r) else r).
+  change (scan thr (a :: a' :: ar') (s :: s' :: sr')) with
+    (let r := scan thr (a' :: ar') (s' :: sr') in if Qlt_le_dec thr s then (if Qeq_bool r 0 then cross thr a a' s s' else r) else r).
+  cbv zeta. rewrite (IH (s' :: sr')). reflexivity.
+Qed.
+
+Lemma last_map_some (l : list Q) : l <> [] -> last (map Some l) None = Some (last l 0).
+Proof.
+  induction l as [|x r IH]; [congruence|]. intros _. destruct r as [|y r']; [reflexivity|].
+  change (last (map Some (x :: y :: r')) None) with (last (map Some (y :: r')) None).
+  change (last (x :: y :: r') 0) with (last (y :: r') 0). apply IH. discriminate.
+Qed.
+
+Theorem radius_sigma_o_increasing frac aps fl : (forall a, In a aps -> 0 < a) -> increasing aps -> length fl = length aps -> aps <> [] ->
+  radius_sigma_o frac aps fl = Some (radius_sigma_m frac aps fl).
+Proof.
+  intros P I L NE. unfold radius_sigma_o, radius_sigma_m. rewrite (sigma_o_some aps fl P I). rewrite somes_map_some.
+  f_equal. unfold radius_thr_o, radius_thr. rewrite scano_map_some.
+  assert (NEs : sigma_m aps fl <> []).
+  { destruct aps as [|a0 ar]; [congruence|]. destruct fl as [|f0 fr]; [discriminate|]. discriminate. }
+  rewrite (last_map_some _ NEs). unfold above. destruct (Qlt_le_dec _ _); reflexivity.
+Qed.
+
+(* whatever the surface brightnesses: the radius never exceeds the largest of the (non-decreasing) apertures it was given when the
+   outer neighbour of every crossing is at or below the threshold - in particular a model is not marked as resolved at a distance
+   whose aperture was reset to the largest tabulated one (ResolvedM) *)
+Inductive nondecreasing : list Q -> Prop :=
+| nd_nil : nondecreasing []
+| nd_one a : nondecreasing [a]
+| nd_cons a a' r : a <= a' -> nondecreasing (a' :: r) -> nondecreasing (a :: a' :: r).
+
+Lemma nd_tail a r : nondecreasing (a :: r) -> nondecreasing r.
+Proof. inversion 1; subst; [constructor|assumption]. Qed.
+
+Lemma nd_le_last a r : nondecreasing (a :: r) -> a <= last (a :: r) 0.
+Proof.
+  revert a. induction r as [|b r IH]; intros a H; [simpl; lra|].
+  inversion H as [| |? ? ? L T]; subst. specialize (IH b T). change (last (a :: b :: r) 0) with (last (b :: r) 0). lra.
+Qed.
+
+Lemma cross_bounds_weak thr a a' s s' : thr < s -> s' <= thr -> a <= a' -> a <= cross thr a a' s s' /\ cross thr a a' s s' <= a'.
+Proof.
+  intros H1 H2 H3. unfold cross.
+  set (f := (s - thr) / (s - s')).
+  assert (D : ~ s - s' == 0) by lra.
+  assert (E : f * (s - s') == s - thr) by (unfold f; field; exact D).
+  assert (F0 : 0 < f) by (destruct (Qlt_le_dec 0 f) as [L|L]; [exact L|exfalso; nra]).
+  assert (F1 : f <= 1) by (destruct (Qlt_le_dec 1 f) as [L|L]; [exfalso; nra|exact L]).
+  split; nra.
+Qed.
+
+Lemma scano_range thr aps : forall sg, nondecreasing aps -> (forall a, In a aps -> 0 < a) -> length sg = length aps ->
+  above thr (last sg None) = false ->
+  0 <= scano thr aps sg /\ scano thr aps sg <= last aps 0 /\ (above thr (hd None sg) = true -> 0 < scano thr aps sg).
+Proof.
+  induction aps as [|a ar IH]; intros sg N P L La.
+  - destruct sg; [|discriminate]. simpl. repeat split; try lra; try (intro X; discriminate X).
+  - destruct sg as [|s sr]; [discriminate|]. destruct ar as [|a' ar'].
+    + destruct sr; [|discriminate]. pose proof (P a (or_introl eq_refl)). simpl in *. repeat split; try lra.
+      intro H'. rewrite La in H'. discriminate.
+    + destruct sr as [|s' sr']; [discriminate|].
+      assert (La' : above thr (last (s' :: sr') None) = false) by exact La.
+      assert (L' : length (s' :: sr') = length (a' :: ar')) by (simpl in *; lia).
+      destruct (IH (s' :: sr') (nd_tail _ _ N) (fun x Hx => P x (or_intror Hx)) L' La') as (R0 & R1 & R2).
+      change (last (a :: a' :: ar') 0) with (last (a' :: ar') 0).
+      change (scano thr (a :: a' :: ar') (s :: s' :: sr')) with
+        (let r := scano thr (a' :: ar') (s' :: sr') in
+         match s with
+         | Some sq => if Qlt_le_dec thr sq then (if Qeq_bool r 0 then crosso thr a a' sq s' else r) else r
+         | None => r
+         end).
+      cbv zeta. simpl hd.
+      assert (Aa : a <= a') by (inversion N; subst; assumption).
+      pose proof (nd_le_last _ _ (nd_tail _ _ N)) as Al.
+      pose proof (P a (or_introl eq_refl)) as Pa.
+      destruct s as [sq|]; [|repeat split; try assumption; discriminate].
+      unfold above. destruct (Qlt_le_dec thr sq) as [Hs|Hs]; [|repeat split; try assumption; discriminate].
+      destruct (Qeq_bool (scano thr (a' :: ar') (s' :: sr')) 0) eqn:E.
+      * apply Qeq_bool_eq in E.
+        assert (NA : above thr s' = false).
+        { destruct (above thr s') eqn:A; [|reflexivity]. specialize (R2 A). lra. }
+        destruct s' as [q'|]; simpl crosso.
+        -- unfold above in NA. destruct (Qlt_le_dec thr q') as [|Hq]; [discriminate|].
+           destruct (cross_bounds_weak thr a a' sq q' Hs Hq Aa) as [Lo Hi]. repeat split; try lra.
+        -- repeat split; try lra.
+      * assert (NZ : ~ scano thr (a' :: ar') (s' :: sr') == 0) by (apply Qeq_bool_neq; exact E).
+        repeat split; try assumption; intros; lra.
+Qed.
+
+Theorem radius_thr_o_le_last thr aps sg : nondecreasing aps -> (forall a, In a aps -> 0 < a) -> length sg = length aps ->
+  radius_thr_o thr aps sg <= last aps 0.
+Proof.
+  intros N P L. unfold radius_thr_o. destruct (above thr (last sg None)) eqn:A; [lra|].
+  apply (scano_range thr aps sg N P L A).
+Qed.
+
+Lemma sigma_rest_o_length a0 f0 aps : forall fl sg, length fl = length aps -> sigma_rest_o a0 f0 aps fl = Some sg -> length sg = length aps.
+Proof.
+  revert a0 f0. induction aps as [|a1 ar IH]; intros a0 f0 fl sg L H.
+  - destruct fl; [|discriminate]. injection H as <-. reflexivity.
+  - destruct fl as [|f1 fr]; [discriminate|]. simpl in H.
+    destruct (dsig a0 f0 a1 f1) as [x|]; [|discriminate].
+    destruct (sigma_rest_o a1 f1 ar fr) as [r|] eqn:E; [|discriminate]. injection H as <-.
+    simpl. f_equal. apply (IH a1 f1 fr r); [simpl in L; lia|exact E].
+Qed.
+
+(* the radius never exceeds the largest aperture it was given *)
+Theorem radius_sigma_o_le_last frac aps fl r : nondecreasing aps -> (forall a, In a aps -> 0 < a) -> length fl = length aps ->
+  radius_sigma_o frac aps fl = Some r -> r <= last aps 0.
+Proof.
+  intros N P L H. unfold radius_sigma_o in H. destruct (sigma_o aps fl) as [sg|] eqn:E; [|discriminate]. injection H as <-.
+  apply radius_thr_o_le_last; [exact N|exact P|].
+  unfold sigma_o in E. destruct aps as [|a0 ar]; [destruct fl; [injection E as <-; reflexivity|discriminate]|].
+  destruct fl as [|f0 fr]; [discriminate|].
+  destruct (sigma_rest_o a0 f0 ar fr) as [rs|] eqn:Er; [|discriminate]. injection E as <-.
+  simpl. f_equal. apply (sigma_rest_o_length a0 f0 ar fr rs); [simpl in L; lia|exact Er].
+Qed.
+
+Example radius_sigma_clamped :
+  (* apertures 2, 3, and 3 again (reset to the largest tabulated one); the flux at the repeated aperture is the same one scaled by a
+     larger distance: sigma = 1, 2, -inf; the crossing next to the -inf lands exactly on the inner aperture *)
+  option_map Qred (radius_sigma_o (1#2) [2; 3; 3] [4; 14; 5]) = Some 3 /\ ext_mask [2; 3; 4] 3 = [true; false; false] /\
+  option_map Qred (radius_sigma_o (1#2) [2; 3; 3; 3] [8; 9; 4; 1]) = Some (23 # 9).
+Proof. repeat split; vm_compute; reflexivity. Qed.
 
 Example radius_sigma_example :
   (* a = 1,2,3; F = 4,10,12 -> sigma = 4, 2, 2/5; thr = 2; outermost crossing between a=1 (4 > 2) and a=2 (2 <= 2): radius = 2 *)
